@@ -1317,7 +1317,7 @@ class C10Oracle(Oracle):
 # ========================================================================================
 # C16: read-only operations do not modify the tracks
 # ========================================================================================
-RO_OPS = ["export_csv", "export_csv_display", "export_csv_subset", "export_csv_seg", "export_geff",
+RO_OPS = ["export_csv", "export_csv_colors", "export_csv_display", "export_csv_subset", "export_csv_seg", "export_geff",
           "export_geff_subset", "export_geff_v3", "save_tracks", "queries_track", "queries_graph",
           "queries_attrs", "deprecated_export_tracks"]
 
@@ -1371,6 +1371,9 @@ class C16Oracle(Oracle):
         subset = set(op["subset"]) & set(self.w.nodes())
         if name == "export_csv":
             export_to_csv(tr, tmp / "a.csv")
+        elif name == "export_csv_colors":
+            colors = {n: np.array([(n % 7) / 7.0, 0.5, 1.0, 1.0]) for n in self.w.nodes()}
+            export_to_csv(tr, tmp / "a.csv", color_dict=colors)
         elif name == "export_csv_display":
             export_to_csv(tr, tmp / "a.csv", use_display_names=True)
         elif name == "export_csv_subset":
